@@ -21,7 +21,8 @@ import (
 	"github.com/google/mtail/internal/zzverif/vlib"
 )
 
-var weights = tmrun.Weights{Strp: 30, Strpc: 8, Sett: 8, Settc: 6, Gts: 18, Inc: 18, Conv: 8, Stop: 6, TwoLayouts: 15}
+var weights = tmrun.Weights{Strp: 30, Strpc: 8, Sett: 8, Settc: 6, Gts: 18, Inc: 18, Conv: 8, Stop: 6, TwoLayouts: 15,
+	SC: 22, TailElse: 35, TailUncond: 8, HeadUncond: 25}
 
 type result struct {
 	cases      []tmrun.Case
@@ -32,10 +33,22 @@ type result struct {
 
 // classify names the construct a leak went through, for known-finding matching.
 func classify(hist [][]tmrun.Event, evs []tmrun.Event) string {
+	matched := map[int]bool{}
+	strp := false
 	for _, e := range evs {
-		if e.K == "strp" {
-			return "strptime-memo-leak"
+		switch e.K {
+		case "match":
+			matched[e.Re] = true
+		case "cap":
+			if !matched[e.Re] {
+				return "stale-capture-leak"
+			}
+		case "strp", "strptop":
+			strp = true
 		}
+	}
+	if strp {
+		return "strptime-memo-leak"
 	}
 	return "cross-line-state-leak"
 }
@@ -47,6 +60,7 @@ func runOne(p tmrun.Prog, zone int, useYear bool, lines []string, freshSample in
 		fmt.Fprintln(os.Stderr, "zone:", err)
 		os.Exit(3)
 	}
+	p.Caps = true
 	src := p.Source()
 	br := tmrun.Bracket{Before: time.Now()}
 	a, err := tmrun.NewVM(src, loc, useYear)
@@ -152,6 +166,10 @@ func interesting(evs [][]tmrun.Event) bool {
 				if seen[e.Value] {
 					return true
 				}
+			case "match":
+				if e.Hit && len(e.Groups) > 1 && seen[e.Groups[1]] {
+					return true
+				}
 			case "fail", "stop":
 				special = true
 			}
@@ -159,6 +177,9 @@ func interesting(evs [][]tmrun.Event) bool {
 		for _, e := range l {
 			if e.K == "strp" {
 				seen[e.Value] = true
+			}
+			if e.K == "match" && e.Hit && len(e.Groups) > 1 {
+				seen[e.Groups[1]] = true
 			}
 		}
 	}
@@ -215,6 +236,22 @@ func main() {
 		add(runOne(tmrun.Prog{Stmts: []tmrun.Stmt{{Tag: "A", Arg: tmrun.ArgStr,
 			Acts: []tmrun.Action{{K: "strp", Layout: "2006-01-02"}, {K: "gts", M: "g0"}, {K: "inc", M: "c0"}}}}},
 			2, false, ls, 1))
+	}
+
+	// a capture group must not survive the line: `cmp || CONST_PATTERN` skips the
+	// pattern when the comparison holds, and the body reads the group
+	add(runOne(tmrun.Prog{Stmts: []tmrun.Stmt{{Kind: "sc", Tag: "K0", Lit: "b0", Acts: []tmrun.Action{
+		{K: "inc", M: "c0"}, {K: "strp", Layout: "2006-01-02"}, {K: "gts", M: "g0"}, {K: "inc", M: "c1"}}}}},
+		0, false, []string{"K0 2020-01-01", "b0", "b0", "zzz", "K0 bogus", "b0", "K0 2019-12-31", "b0"}, 2))
+	// the instruction that ends a line is the last one of the program
+	for _, term := range [][]tmrun.Action{
+		{{K: "inc", M: "c2"}, {K: "stop"}},
+		{{K: "strpc", Layout: "2006-01-02", Const: "verif.log"}},
+	} {
+		add(runOne(tmrun.Prog{Stmts: []tmrun.Stmt{
+			{Kind: "uncond", Acts: []tmrun.Action{{K: "inc", M: "c0"}}},
+			{Tag: "GET", Arg: tmrun.ArgStr, Acts: []tmrun.Action{{K: "inc", M: "c1"}}, Else: term}}},
+			0, false, []string{"GET /a", "POST /b", "GET /index.html", "POST /c", "POST /d", "GET /e"}, 2))
 	}
 
 	nprog := 170
